@@ -24,6 +24,7 @@ import (
 	"path/filepath"
 	"sort"
 	"strings"
+	"time"
 
 	"golang.org/x/tools/go/gcexportdata"
 	"golang.org/x/tools/go/ssa"
@@ -124,7 +125,17 @@ var extCache = map[string]*extCacheT{}
 // Load type-checks ./x/... and ./app/... of the repository at dir (plus the module packages they
 // import) from source and builds SSA. overlay (optional, absolute path -> content) replaces file
 // contents in memory.
+var timing = os.Getenv("VERIF_TIMING") != ""
+
+func tick(t0 *time.Time, what string) {
+	if timing {
+		fmt.Fprintf(os.Stderr, "[timing] %-28s %6.2fs\n", what, time.Since(*t0).Seconds())
+	}
+	*t0 = time.Now()
+}
+
 func Load(dir string, overlay map[string][]byte) (*Prog, error) {
+	t0 := time.Now()
 	// 1. dependency graph and file sets (no compilation)
 	cache := extCache[dir]
 	if cache == nil || len(overlay) == 0 {
@@ -136,6 +147,7 @@ func Load(dir string, overlay map[string][]byte) (*Prog, error) {
 		extCache[dir] = cache
 	}
 	all := cache.all
+	tick(&t0, "go list -deps")
 	if len(all) == 0 {
 		return nil, fmt.Errorf("no packages listed")
 	}
@@ -200,6 +212,7 @@ func Load(dir string, overlay map[string][]byte) (*Prog, error) {
 		}
 	}
 
+	tick(&t0, "go list -export")
 	// 3. parse + type-check module packages in dependency order
 	fset := cache.fset
 	imports := cache.imports // packages read from export data (never module packages)
@@ -310,6 +323,7 @@ func Load(dir string, overlay map[string][]byte) (*Prog, error) {
 		return nil, fmt.Errorf("package errors: %s", strings.Join(typeErrs, "; "))
 	}
 
+	tick(&t0, "parse+typecheck+import")
 	// 4. SSA
 	prog := ssa.NewProgram(fset, ssa.InstantiateGenerics)
 	created := map[*types.Package]bool{}
@@ -332,7 +346,9 @@ func Load(dir string, overlay map[string][]byte) (*Prog, error) {
 	for _, pk := range P.AllPkgs {
 		createAll(pk.Types)
 	}
+	tick(&t0, "ssa create")
 	prog.Build()
+	tick(&t0, "ssa build")
 	P.SSA = prog
 	P.AllFuncs = allFunctions(prog, P)
 	for f := range P.AllFuncs {
@@ -340,6 +356,7 @@ func Load(dir string, overlay map[string][]byte) (*Prog, error) {
 			P.NumFuncs++
 		}
 	}
+	tick(&t0, "all functions")
 	return P, nil
 }
 
